@@ -5,6 +5,7 @@
 -/
 import TealerModel.Lemmas.Cfg
 import TealerModel.Lemmas.StepEdge
+import TealerModel.Lemmas.Mirror
 namespace Tealer.C04
 
 /-- blocks partition the instructions in source order: concatenating the created blocks in creation order
@@ -32,6 +33,22 @@ theorem C04_prune_witness :
   have : t = (match parseTeal staleWitness with | .ok t => t | .error _ => default) := by rw [ht]
   subst this
   decide
+
+/-- SUCCESSOR AND PREDECESSOR LISTS MIRROR EACH OTHER AND NEVER NAME A BLOCK OUTSIDE THE GRAPH — for every program the
+    model's `parseTeal` accepts, on the final block list (after the pruning of unreachable blocks):
+    * `b` occurs in `next a` exactly as often as `a` occurs in `prev b`;
+    * every successor is a block of the list;
+    * a block that is not retained has no successor and is named in no predecessor list (the repaired pruning loop, F09);
+    * a retained block has the successor list of the graph of passes 3-4 — the graph of `C05_blocks_are_closure`. -/
+theorem C04_mirror_wellformed (ins : List Ins) (t : Teal) (h : parseTeal ins = .ok t) :
+    ∃ nexts bs, insNext ins = .ok nexts ∧ CfgWF.graphOf ins nexts = .ok bs ∧ t.allBlocks.length = bs.length ∧
+      (∀ a b, a < t.allBlocks.length → b < t.allBlocks.length →
+        (t.allBlocks[a]!).next.count b = (t.allBlocks[b]!).prev.count a) ∧
+      (∀ d, d < t.allBlocks.length → d ∉ t.live →
+        (t.allBlocks[d]!).next = [] ∧ ∀ b, b < t.allBlocks.length → d ∉ (t.allBlocks[b]!).prev) ∧
+      (∀ x, x ∈ t.live → x < t.allBlocks.length ∧ (t.allBlocks[x]!).next = (bs[x]!).next) ∧
+      (∀ a, a < t.allBlocks.length → ∀ b ∈ (t.allBlocks[a]!).next, b < t.allBlocks.length) :=
+  Mirror.parse_mirror ins t h
 
 /-- pruning one unreachable block leaves it without successors -/
 theorem C04_prune_all (bs : List RawBlock) (bi : Nat) (bs' : List RawBlock) (h : pruneOne bs bi = .ok bs')
